@@ -38,7 +38,12 @@ TRUSTED = [
     "through takewhile); not covered by the property",
 ]
 ASSUMPTIONS = [
-    "sources are long enough for the K demanded outputs (end-of-source behaviour belongs to C03/C08/C09/C19)",
+    "count/trip/endless modes: sources are long enough for the K demanded outputs; the `drain` mode (finite source consumed "
+    "to its end, pull counter at every output incl. the epilogue) is run only for stages whose end-of-source behaviour is "
+    "not a defect owned by C03/C09/C19/C20 (D1, D6, D7, D11)",
+    "auxiliary sources (zip partners, coefficient streams, modulo_counter arguments) are lock-step: their pull counter must "
+    "equal the pull counter of the stage's main input (pair-source model, theorem lockstep_two_sources); resample with a "
+    "time-varying step stream is not covered",
     "size>=1, hop>=1, hop<=size for overlap-add/STFT, resample order>=1 and old/new>0 (exact Fractions), Streamix delta>=0",
     "Stream.filter has no bound (the property gives none): its reads are compared with the position of the k-th passing item",
 ]
